@@ -1,11 +1,11 @@
 // ------------------------------------------------------------------ driver
-/// inputs that were found (or suspected) to crash the C API; they run first
+/// inputs that crashed the C API before the repairs (or were suspected to); they run first
 fn probes() -> Vec<(&'static str, PCase)> {
     let mk = |src: &str, console: bool| PCase { sources: vec![(None, src.to_string())], buffers: vec![b"alpha".to_vec()], console, ..Default::default() };
     vec![
         ("probe:meta-string-with-nul", mk("rule nulmeta { meta: a = \"foo\\x00bar\" condition: true }", false)),
         ("probe:console-log-with-nul", mk("import \"console\" rule nullog { condition: console.log(\"a\\x00b\") }", true)),
-        // yrx_scanner_finish on a scanner that has not scanned any block (found by the plumbing sequences)
+        // yrx_scanner_finish on a scanner that has not scanned any block (found by the plumbing sequences; repaired)
         ("probe:finish-without-blocks", PCase { finish_only: true, ..mk("rule f { strings: $a = \"alpha\" condition: $a }", false) }),
         ("probe:plain", mk("rule plain : t1 { meta: a = \"foo\" strings: $a = \"alpha\" condition: $a }", true)),
     ]
